@@ -24,7 +24,10 @@ out += ["### 8.2 Seeded changes (independent sub-agents) and which checks catch 
         "Each change was produced by a fresh sub-agent that saw only the property text and its own scratch worktree, then",
         "confirmed here (`tools/confirm_seed.sh`: demonstration passes on the clean tree, fails with the patch, the whole existing",
         "suite still passes with the patch) and stored under `seeded/<id>-<X>/`. `tools/run_seed.sh <ID> <X>` applies it in a",
-        "scratch copy and runs the check.", "",
+        "scratch copy and runs the check. Exception: the round-6 outputs for C02..C10 (rows K, L) were still in /tmp when the",
+        "sandbox was restored and are lost; their `caught` verdicts are as recorded at the time, and the eight rows that were",
+        "`missed` then were re-run, after the strengthening, on patches re-written by hand from the recorded mechanism",
+        "(`seeded/reconstructed/`, no demonstration, not independent).", "",
         "| Seed | Result | Tier | Caught by (signature) / what was strengthened |", "|---|---|---|---|"]
 p = os.path.join(ROOT, "seeded", "results.tsv")
 rows = [l.rstrip("\n").split("\t") for l in open(p) if l.strip()] if os.path.exists(p) else []
